@@ -215,10 +215,12 @@ def proof_gate(ctx, extra_files=()):
     """Build everything, audit sources, re-check Properties/<id>.v and read Print Assumptions."""
     roots = ["Properties/%s.v" % ctx.prop, "Harness/%s.v" % ctx.prop] + list(extra_files)
     roots = [r for r in roots if (COQ / r).exists()]
-    only = os.environ.get("VERIF_COQ_ONLY_DEPS") == "1"     # development aid; the registered commands build everything
-    ok, log = coq_make([r + "o" for r in roots] if only else None)
+    # every check builds and audits the dependency closure of its own Properties/Harness files
+    # (bin/setup builds the closures of all claimed properties with one parallel make)
+    only = True
+    ok, log = coq_make([r + "o" for r in roots])
     gate = {"obligations": 0, "discharged": 0, "theorems": [], "assumptions": {}, "ok": True,
-            "checker_cmd": "make -C coq (coq_makefile, full .vo) && coqc -Q coq Mk coq/Properties/%s.v  [Print Assumptions under every theorem]" % ctx.prop}
+            "checker_cmd": "make -C coq Properties/%s.vo Harness/%s.vo (coq_makefile, full .vo build of the dependency closure) && coqc -Q coq Mk coq/Properties/%s.v  [Print Assumptions under every theorem]" % (ctx.prop, ctx.prop, ctx.prop)}
     propfile = COQ / "Properties" / ("%s.v" % ctx.prop)
     src = strip_comments(propfile.read_text())
     thms = re.findall(r"^\s*(?:Theorem|Lemma|Example|Corollary)\s+([A-Za-z0-9_']+)", src, re.M)
